@@ -118,6 +118,26 @@ func TestVerifU128Views(t *testing.T) {
 				err = json.Unmarshal([]byte(dec), &back2)
 				chk("UnmarshalJSON(decimal)", want, same(&back2, err), "C13/UnmarshalJSON/"+cl)
 				chk("Compare", fmt.Sprint(c.Res.Cmp), fmt.Sprint(u.Compare(uw)), "C13/Compare")
+				// a value is its own: decoding JSON INTO a Uint128 obtained from a constructor (the receiver is overwritten in
+				// place) must not change what the constructors hand out afterwards, for zero, for this value, for one
+				for _, seedDec := range []string{"0", dec, "1"} {
+					sn, _ := new(big.Int).SetString(seedDec, 10)
+					first, ferr := NewUint128(sn)
+					if ferr != nil || first == nil {
+						continue
+					}
+					other := "340282366920938463463374607431768211455"
+					if seedDec == other {
+						other = "7"
+					}
+					_ = json.Unmarshal([]byte(other), first)
+					again, aerr := NewUint128(sn)
+					got := "error"
+					if aerr == nil && again != nil {
+						got = again.String()
+					}
+					chk("NewUint128 after decoding into an earlier result", seedDec, got, "C13/constructor-results-aliased/"+cl)
+				}
 				// SCALE form: the 16 little-endian bytes
 				enc, err := Marshal(u)
 				chk("Marshal", vHex(v), vHex(enc)+vuErr(err), "C13/Marshal")
